@@ -8,7 +8,8 @@ SPEC = dict(
                "random histories covering every listed capacity (non-positive ones included, the default of 100 observed by filling 101+ "
                "keys), unlimited / long / already elapsed lifetimes and pools of 2-8 keys; a few histories run for 15-75 thousand operations on one "
                "instance, a few use capacities of 1024-2200 with a scripted fill, ageing and mass removal (deletion or sweep) before the random part; "
-               "one stored value in three is the nil interface, a typed nil, an empty string or slice, zero or false. Expiry is decided on virtual time only. "
+               "one key pool in five holds two keys that collide under a common 32-bit hash; the SearchCache adapter reuses one result buffer for its Puts and "
+               "scribbles over it afterwards (the cache keeps its own copy); one stored value in three is the nil interface, a typed nil, an empty string or slice, zero or false. Expiry is decided on virtual time only. "
                "Exploration of histories, not a proof over all of them.",
     level_note="Trusted: the reference model, the verif-tagged hook (*LRUCache).VerifAdvance (ages all entries by d under the cache lock) and "
                "(*SearchCache).VerifLRU, the Go runtime. Single-goroutine histories only (concurrency is another property).",
@@ -26,10 +27,10 @@ SPEC = dict(
          "statement does not demand a complete sweep).",
     floors=T({"evaluations": 15000, "distinct_nontrivial": 8000, "ops": 2000000, "evictions": 100000, "expiry-miss": 50000,
               "latitude-window-lookups": 5000, "sweeps": 50000, "clear": 10000, "default-capacity": 100, "searchcache-ops": 100000,
-              "manager-capacity": 16, "manager-ttl": 16, "histories-lru-long": 15, "histories-lru-large": 15, "puts-of-nil-and-zero-values": 100000},
+              "manager-capacity": 16, "manager-ttl": 16, "histories-lru-long": 15, "histories-lru-large": 15, "puts-of-nil-and-zero-values": 100000, "pools-with-hash-colliding-keys": 3000},
              {"evaluations": 400000, "distinct_nontrivial": 200000, "ops": 50000000, "evictions": 2500000, "expiry-miss": 1250000,
               "latitude-window-lookups": 125000, "sweeps": 1250000, "clear": 250000, "default-capacity": 2500, "searchcache-ops": 2500000,
-              "manager-capacity": 16, "manager-ttl": 16, "histories-lru-long": 800, "histories-lru-large": 800, "puts-of-nil-and-zero-values": 5000000}),
+              "manager-capacity": 16, "manager-ttl": 16, "histories-lru-long": 800, "histories-lru-large": 800, "puts-of-nil-and-zero-values": 5000000, "pools-with-hash-colliding-keys": 150000}),
     assumptions=[
         "virtual time: every advance is a multiple of 10 s and every lifetime is 5 s off that grid (1h0m5s, 1m5s; the manager check probes "
         "DefaultCacheTTL -5 s / +5 s), so the real micro-seconds elapsed during a history cannot change an expiry decision; a history "
